@@ -245,11 +245,11 @@ fn dig_skeleton(text: &str) -> String {
     if out.is_empty() { "-".to_string() } else { out.join(" ") }
 }
 
-fn obs_ops(bytes: &[u8], ops: &str) -> String {
+fn obs_ops_n(bytes: &[u8], ops: &str) -> (String, usize) {
     let b2 = bytes.to_vec();
     let ops = ops.to_string();
     catch(move || {
-        let msg = match Message::from_slice(&b2) { Ok(m) => m, Err(_) => return "short".to_string() };
+        let msg = match Message::from_slice(&b2) { Ok(m) => m, Err(_) => return ("short".to_string(), 0) };
         let mut st: Vec<Obj> = vec![];
         let mut out: Vec<String> = vec![];
         let push_q = |q: &Question<ParsedName<&[u8]>>| q_obs(q);
@@ -373,8 +373,22 @@ fn obs_ops(bytes: &[u8], ops: &str) -> String {
             };
             out.push(r);
         }
-        out.join(" ; ")
-    }).unwrap_or_else(|_| "Panic".into())
+        (out.join(" ; "), st.len())
+    }).unwrap_or_else(|_| ("Panic".into(), 0))
+}
+
+fn obs_ops(bytes: &[u8], ops: &str) -> String { obs_ops_n(bytes, ops).0 }
+
+/// The same calls with every iterator number shifted by k (a traversal in a view that already holds k iterators).
+fn shift_ops(ops: &str, k: usize) -> String {
+    ops.split(',').map(|o| {
+        let (c, arg) = o.split_at(1);
+        match c {
+            "n" | "a" | "r" | "s" => format!("{}{}", c, arg.parse::<usize>().unwrap_or(0) + k),
+            "L" => { let mut it = arg.split('_'); let i: usize = it.next().and_then(|x| x.parse().ok()).unwrap_or(0); format!("L{}_{}", i + k, it.next().unwrap_or("0")) }
+            _ => o.to_string(),
+        }
+    }).collect::<Vec<_>>().join(",")
 }
 
 fn gen_ops(r: &mut Rng) -> String {
@@ -1628,6 +1642,20 @@ fn real_main() {
             let o = obs_ops(m, &ops);
             out.check(o != "Panic", "panic_op_sequence", &c, "a sequence of read-side calls panicked");
             out.case(&c, &o, m.len() > 12, "ops");
+            // a second traversal after other activity: the same calls, iterator numbers shifted
+            // past the iterators the earlier activity created, must give the same results
+            if o != "short" && o != "Panic" {
+                let prefix = gen_ops(r);
+                let (po, k) = obs_ops_n(m, &prefix);
+                if po != "Panic" {
+                    let both = format!("{},{}", prefix, shift_ops(&ops, k));
+                    let (bo, _) = obs_ops_n(m, &both);
+                    let n1 = prefix.split(',').count();
+                    let tail: Vec<&str> = bo.split(" ; ").skip(n1).collect();
+                    let same = tail.join(" ; ") == o;
+                    out.check(same, "nondeterministic", &format!("ops {} {}", hex(m), both), "a traversal after earlier activity differs from the traversal of a fresh view");
+                }
+            }
         }
         {
             let q = if r.chance(1, 4) { query.clone() } else { related_query(r, m) };
